@@ -6,6 +6,8 @@ package main
 
 import (
 	"fmt"
+	"go/constant"
+	"go/types"
 	"strconv"
 	"strings"
 )
@@ -71,6 +73,11 @@ func (c *concEnv) eval(e Expr) cval {
 	case *EIdent:
 		if v, ok := c.vars[x.Name]; ok {
 			return v
+		}
+		if o, ok := c.u.tpkg.Scope().Lookup(x.Name).(*types.Const); ok {
+			if n, exact := constant.Int64Val(o.Val()); exact {
+				return n
+			}
 		}
 		cfail("unknown identifier %s in ground evaluation", x.Name)
 	case *EUnary:
